@@ -149,7 +149,7 @@ class Component(ModelElement):
         comp_sliver.set_property(prop_name=pname, prop_val=pval)
         # write into the graph
         prop_dict = self.topo.graph_model.component_sliver_to_graph_properties_dict(comp_sliver)
-        self.topo.graph_model.update_node_properties(node_id=self.node_id, props=prop_dict)
+        self._write_properties(prop_dict, (pname,))
 
     def set_properties(self, **kwargs):
         """
@@ -161,7 +161,7 @@ class Component(ModelElement):
         comp_sliver.set_properties(**kwargs)
         # write into the graph
         prop_dict = self.topo.graph_model.component_sliver_to_graph_properties_dict(comp_sliver)
-        self.topo.graph_model.update_node_properties(node_id=self.node_id, props=prop_dict)
+        self._write_properties(prop_dict, kwargs.keys())
 
     @staticmethod
     def list_properties() -> Tuple[str]:
